@@ -1849,6 +1849,31 @@ func (t *tr) call(x *ast.CallExpr, en *env) (*Node, error) {
 
 		return t.inline(fd, file, x, en, false)
 	case *ast.SelectorExpr:
+		if f.Sel.Name == "Seconds" && len(x.Args) == 0 {
+			// `d.Seconds()` of a duration: durations are whole seconds, so this is their number (as Go's float64; the
+			// only use the translation accepts afterwards is the conversion to an integer)
+			if n, err := t.expr(f.X, en); err == nil && n.K == KInt && n.U == UDur {
+				return retagAny(n, UPlain), nil
+			}
+		}
+
+		if (f.Sel.Name == "Add" || f.Sel.Name == "Before" || f.Sel.Name == "After") && len(x.Args) == 1 {
+			// instants are Unix seconds (the table says which expressions are instants): `t.Add(d)` = t + d,
+			// `a.Before(b)` = a < b, `a.After(b)` = a > b
+			if a, err := t.expr(f.X, en); err == nil && a.K == KInt && a.U == UPlain {
+				if b, err := t.expr(x.Args[0], en); err == nil && b.K == KInt {
+					switch {
+					case f.Sel.Name == "Add" && b.U == UDur:
+						return Bin("add", a, retagAny(b, UPlain), UPlain), nil
+					case f.Sel.Name == "Before" && b.U == UPlain:
+						return Cmp("lt", a, b), nil
+					case f.Sel.Name == "After" && b.U == UPlain:
+						return Cmp("gt", a, b), nil
+					}
+				}
+			}
+		}
+
 		if id, ok := f.X.(*ast.Ident); ok {
 			if b, local := en.m[id.Name]; local {
 				if b.kind == bAlias && Text(b.alias) == "recv" {
